@@ -51,6 +51,21 @@ func c03GenCmd(r *Rng) database.Command {
 	case 3:
 		c.Keywords = []string{"ab", "cd"} // "ab"+"cd" must not glue into "abcd"
 		c.Tags = []string{"x", "y"}       // one-letter elements must not glue into "xy"
+	case 4:
+		// one word several hundred times in one field (a pasted log line, a generated tag list):
+		// term-frequency counters narrower than int would wrap
+		w := Pick(r, wordPool)
+		rep := strings.TrimSpace(strings.Repeat(w+" ", Pick(r, []int{255, 256, 257, 300, 520})))
+		switch r.Intn(4) {
+		case 0:
+			c.Command = rep
+		case 1:
+			c.Description = rep
+		case 2:
+			c.Keywords = append(c.Keywords, rep)
+		default:
+			c.Tags = strings.Fields(rep)
+		}
 	}
 	return c
 }
@@ -170,7 +185,7 @@ func genC03Hist(r *Rng, tier string, idx int) []string {
 	for s := 0; s < nsteps; s++ {
 		kind := "load"
 		if s > 0 {
-			kind = Pick(r, []string{"update", "update", "grow", "grow", "loadp", "load", "update-same-n", "replace", "replace"})
+			kind = Pick(r, []string{"update", "update", "grow", "grow", "loadp", "load", "update-same-n", "update-inplace", "replace", "replace"})
 		} else {
 			kind = Pick(r, []string{"load", "loadp", "loadp", "grow", "update"})
 		}
@@ -188,9 +203,14 @@ func genC03Hist(r *Rng, tier string, idx int) []string {
 			} else {
 				cur = c03Populated(main)
 			}
-		case "update", "update-same-n":
+		case "update", "update-same-n", "update-inplace":
 			st.kind = "update"
-			if kind == "update-same-n" && len(cur) > 0 {
+			if kind == "update-inplace" && len(cur) > 0 {
+				// the caller edits the list it already holds (same backing array, same length) and hands it
+				// back through UpdateDatabase: no slice-identity or length test can notice the change
+				st.kind = "update inplace"
+				st.cmds = small(len(cur), len(cur))
+			} else if kind == "update-same-n" && len(cur) > 0 {
 				st.cmds = small(len(cur), len(cur)) // replacement of equal size: only an eager rebuild notices
 			} else {
 				st.cmds = small(0, 6)
@@ -230,7 +250,7 @@ func genC03Hist(r *Rng, tier string, idx int) []string {
 		}
 		steps = append(steps, st)
 		switch st.kind {
-		case "load", "loadp", "update":
+		case "load", "loadp", "update", "update inplace":
 			idxN = len(cur) // eager rebuild
 		}
 		// searches after the step (sometimes none: two state changes in a row)
@@ -391,7 +411,13 @@ func execC03(ops []string, mon *Mon) []string {
 			mon.Tag("op-loadp")
 			out = append(out, st())
 		case "update":
-			ensure().UpdateDatabase(c03Clone(pending))
+			if c := ensure(); len(f) > 1 && f[1] == "inplace" && len(pending) == len(c.Commands) {
+				copy(c.Commands, c03Clone(pending))
+				c.UpdateDatabase(c.Commands)
+				mon.Tag("op-update-inplace")
+			} else {
+				c.UpdateDatabase(c03Clone(pending))
+			}
 			pending = nil
 			nsteps++
 			mon.Tag("op-update")
